@@ -248,7 +248,7 @@ class C10(PropCheck):
         centre = [r.uniform(lo, hi) for lo, hi in bounds]
         curv = [r.uniform(0.3, 2.0) for _ in range(d)]
         noise = r.choice([0.0, 0.05, 0.2])
-        off = r.choice([0.0, 0.5, 2.0])
+        off = r.choice([0.0, 0.5, 2.0, -1.0])   # -1: discrepancies (log scale) on both sides of 0
         batches = []
         for k, sz in enumerate(sizes):
             X = [[r.uniform(lo, hi) for lo, hi in bounds] for _ in range(sz)]
@@ -257,7 +257,60 @@ class C10(PropCheck):
         if r.random() < 0.12:
             batches[-1]['optimize'] = False   # hyper-parameters left at the heuristics / carried over
         return dict(dim=d, bounds=bounds, batches=batches, max_opt_iters=r.choice([5, 15, 30]),
-                    optimizer=r.choice(['scg', 'scg', 'lbfgsb']))
+                    optimizer=r.choice(['scg', 'scg', 'lbfgsb']),
+                    target=dict(centre=centre, curv=curv, noise=noise, off=off))
+
+    BOUNDARY_THRESHOLDS = ('int0', 'float0', 'negzero', 'neg', 'tiny')
+    PHASE_OPS = ('optimize', 'lengthscale', 'variance', 'noise', 'bias', 'update_opt', 'optimize', 'update')
+
+    def _boundary_threshold(self, cls, ys):
+        """caller-supplied thresholds on the boundary of `truthiness`: 0 (int), 0.0, -0.0, negative, tiny positive"""
+        r = self.rng
+        if cls == 'int0':
+            return 0
+        if cls == 'float0':
+            return 0.0
+        if cls == 'negzero':
+            return -0.0
+        if cls == 'neg':
+            return r.choice([-1e-3, -0.25, -1.0, -3.0, -round(r.uniform(0.01, 2.0), 3), min(ys) - abs(min(ys)) - 0.5])
+        return r.choice([5e-324, 1e-300, 2.2250738585072014e-308, 1e-30, 2.220446049250313e-16, 1e-9])
+
+    def _phase_case(self, rec, idx):
+        """sampling phase -> leave -> change of the hyper-parameters (mostly WITHOUT new evidence) -> sampling phase ..."""
+        r = self.rng
+        rec = json.loads(json.dumps(rec))
+        cold = r.random() < 0.5
+        if cold:      # hyper-parameters still at the heuristics in the first phase: optimize() certainly moves them
+            for b in rec['batches']:
+                b['optimize'] = False
+        tg = rec['target']
+        steps = []
+        for k in range(r.choice([1, 2, 2, 3])):
+            op = self.PHASE_OPS[idx % len(self.PHASE_OPS)] if k == 0 else r.choice(self.PHASE_OPS)
+            if op in ('update', 'update_opt'):
+                X = [[r.uniform(lo, hi) for lo, hi in rec['bounds']] for _ in range(r.randint(1, 2))]
+                Y = [tg['off'] + sum(c * (x - m) ** 2 for c, x, m in zip(tg['curv'], row, tg['centre'])) + tg['noise'] * r.gauss(0, 1) for row in X]
+                steps.append(dict(op='update', X=X, Y=Y, optimize=(op == 'update_opt')))
+            elif op == 'optimize':
+                steps.append(dict(op='optimize'))
+            else:
+                steps.append(dict(op='set', param=op, factor=r.choice([0.3, 0.5, 0.8, 1.5, 2.5, round(r.uniform(0.2, 4.0), 3)])))
+        ys = [y for b in rec['batches'] for y in b['Y']]
+        tk = r.choice(['v', 'v', 'q'] + list(self.BOUNDARY_THRESHOLDS))
+        if tk == 'v':
+            thr = r.uniform(min(ys) - 0.5, sorted(ys)[len(ys) // 2] + 0.3)
+        elif tk == 'q':
+            thr = sorted(ys)[len(ys) // 4]
+        else:
+            thr = self._boundary_threshold(tk, ys)
+        pts = [self._point(rec['bounds'], r.choice(['in', 'in', 'in', 'on', 'out'])) for _ in range(r.choice([2, 3, 4]))]
+        pts[0] = self._point(rec['bounds'], 'in')
+        pr = self._prior_spec(rec)
+        for st in steps:
+            self.bump('phase_step=' + (st['op'] if st['op'] != 'set' else 'set_' + st['param']) + ('_optimize' if st.get('optimize') else ''))
+        self.bump('phase_first_phase=' + ('heuristic_hyperparameters' if cold else 'as_fitted'))
+        return dict(kind='phase', recipe=rec, steps=steps, points=pts, threshold=thr, prior=pr)
 
     def _point(self, bounds, kind):
         r = self.rng
@@ -304,7 +357,7 @@ class C10(PropCheck):
         if getattr(self, '_search_mode', False):
             n_rec = 12 if self.tier == 'quick' else 60
         r = self.rng
-        for _ in range(n_rec):
+        for i_rec in range(n_rec):
             rec = self._recipe()
             self.bump('dim=%d' % rec['dim'])
             self.bump('updates=%d' % len(rec['batches']))
@@ -313,12 +366,21 @@ class C10(PropCheck):
             pts = [self._point(rec['bounds'], r.choice(['in', 'in', 'out', 'on'])) for _ in range(npts)]
             yield dict(kind='fast', recipe=rec, points=pts)
             self.bump('fast_points', npts)
-            for _ in range(4 if self.tier == 'quick' else 6):
+            yield self._phase_case(rec, i_rec)
+            n_q = 4 if self.tier == 'quick' else 6
+            for i_q in range(n_q + 2):
                 q = self._query(rec)
                 pr = self._prior_spec(rec)
                 ys = [y for b in rec['batches'] for y in b['Y']]
                 thr = r.choice([None, 'q', 'far'] + ['v'] * 6)
-                if thr == 'far':     # far lower tail: (t - mean)/sd below -38, normal pdf and cdf underflow in binary64
+                if i_q >= n_q:      # two queries per recipe with a caller-supplied boundary threshold, classes in rotation
+                    cls = self.BOUNDARY_THRESHOLDS[(2 * i_rec + i_q - n_q) % len(self.BOUNDARY_THRESHOLDS)]
+                    thr = self._boundary_threshold(cls, ys)
+                    self.bump('threshold_supplied=' + cls)
+                    if q['kinds'][0] not in ('in', 'on', 'corner'):
+                        q['kinds'][0] = 'in'
+                        q['points'][0] = self._point(rec['bounds'], 'in')
+                elif thr == 'far':     # far lower tail: (t - mean)/sd below -38, normal pdf and cdf underflow in binary64
                     thr = min(ys) - r.uniform(5, 60)
                 elif thr == 'q':
                     thr = sorted(ys)[len(ys) // 4]
@@ -334,11 +396,11 @@ class C10(PropCheck):
                 yield dict(kind='post', recipe=rec, query=q, prior=pr, threshold=thr)
 
     # ---- implementation driver ------------------------------------------------------------------
-    def _gp(self, rec, want_snaps=False):
+    def _gp(self, rec, want_snaps=False, fresh=False):
         from elfi.methods.bo.gpy_regression import GPyRegression
         _shim_param_float()
         key = json.dumps(rec, sort_keys=True)
-        if not want_snaps and key in self._gps:
+        if not want_snaps and not fresh and key in self._gps:
             return self._gps[key], None
         d = rec['dim']
         names = ['p%d' % i for i in range(d)]
@@ -352,16 +414,139 @@ class C10(PropCheck):
                 Y = np.array(gp.Y, dtype=float)
                 snaps.append(dict(X=X.tolist(), Y=Y[:, 0].tolist() if Y.ndim == 2 and Y.shape[1] == 1 else 'bad-shape',
                                   n=int(gp.n_evidence), shape=[list(X.shape), list(Y.shape)]))
+        if fresh:       # the caller is going to change it: never shared with other cases
+            return gp, snaps
         if len(self._gps) > 8:
             self._gps.clear()
         self._gps[key] = gp
         return gp, snaps
+
+    # ---- multi-phase use of the cached-RBF path -------------------------------------------------
+    @staticmethod
+    def _lib_values(gp, x):
+        """mean, variance (with noise) and their gradients from the underlying GP library, GPy, itself"""
+        m, v = gp._gp.predict(x)
+        gm, gv = gp._gp.predictive_gradients(x)
+        return [np.ravel(m).tolist(), np.ravel(v).tolist(), np.ravel(np.asarray(gm)[:, :, 0]).tolist(), np.ravel(gv).tolist()]
+
+    @staticmethod
+    def _lib_amp(gp, x):
+        """rounding-error amplification of the quadratic forms, from GPy's CURRENT posterior (not from the cache)"""
+        X = np.asarray(gp._gp.X, dtype=float)
+        n = len(X)
+        W = np.asarray(gp._gp.posterior.woodbury_inv, dtype=float).reshape(n, n)
+        k = np.asarray(gp._gp.kern.K(x, X), dtype=float).ravel()
+        kr = np.asarray(gp._gp.kern.rbf.K(x, X), dtype=float).ravel()
+        ell = float(np.ravel(gp._gp.kern.rbf.lengthscale)[0])
+        dk = -(x - X) / ell ** 2 * kr[:, None]
+        nW = float(np.linalg.norm(W, 2))
+        nk = float(np.linalg.norm(k))
+        alpha = float(np.linalg.norm(np.asarray(gp._gp.posterior.woodbury_vector)))
+        ndk = float(np.max(np.linalg.norm(dk, axis=0)))
+        return dict(var=nW * nk * nk, grad_var=nW * nk * (nk + ndk), mean=alpha * nk, grad_mean=alpha * (nk + ndk))
+
+    @staticmethod
+    def _hyper(gp):
+        return [float(v) for v in np.ravel(gp._gp.param_array)]
+
+    def _apply_step(self, gp, st):
+        """what happens between two sampling phases (is_sampling is False here)"""
+        if st['op'] == 'update':
+            gp.update(np.array(st['X'], dtype=float), np.array(st['Y'], dtype=float), optimize=st['optimize'])
+        elif st['op'] == 'optimize':
+            gp.optimize()                       # standalone: no new evidence
+        else:                                   # direct edit of a kernel / likelihood parameter on the GPy model
+            m = gp._gp
+            par = {'lengthscale': m.kern.rbf.lengthscale, 'variance': m.kern.rbf.variance,
+                   'bias': m.kern.bias.variance, 'noise': m.Gaussian_noise.variance}[st['param']]
+            new = float(np.ravel(par)[0]) * st['factor']
+            if st['param'] == 'lengthscale':
+                m.kern.rbf.lengthscale = new
+            elif st['param'] == 'variance':
+                m.kern.rbf.variance = new
+            elif st['param'] == 'bias':
+                m.kern.bias.variance = new
+            else:
+                m.Gaussian_noise.variance = new
+
+    def _run_phases(self, case):
+        from elfi.methods.posteriors import BolfiPosterior
+        rec = case['recipe']
+        d = rec['dim']
+        names = ['p%d' % i for i in range(d)]
+        gp, _ = self._gp(rec, fresh=True)
+        prior = make_prior(case['prior'], d, names)
+        thr = case['threshold']
+        b = np.array(rec['bounds'], dtype=float)
+        P = [np.array(p, dtype=float) for p in case['points']]
+        phases = []
+        for k in range(len(case['steps']) + 1):
+            ph = dict(step=None, changed=None, probe=None)
+            if k > 0:
+                st = case['steps'][k - 1]
+                h0 = self._hyper(gp)
+                gp.is_sampling = False          # the sampling phase is over
+                self._apply_step(gp, st)
+                h1 = self._hyper(gp)
+                ph['step'] = st
+                ph['changed'] = bool(h0 != h1)
+                ph['hyper'] = [h0, h1]
+                # observation only (no clause): re-entering the sampling phase right now, i.e. before any
+                # non-sampling predict() has been made, serves the previous phase's cache
+                x0 = P[0][None, :]
+                gp.is_sampling = True
+                try:
+                    m_, v_ = gp.predict(x0)
+                    ph['probe'] = [np.ravel(m_).tolist(), np.ravel(v_).tolist()]
+                except Exception as e:
+                    ph['probe'] = 'raised ' + type(e).__name__
+                finally:
+                    gp.is_sampling = False
+            # the surrogate is used outside the sampling phase (fitting / acquisition / reference values): slow path
+            pts = []
+            for p in P:
+                x = p[None, :]
+                m0, v0 = gp.predict(x)
+                gm0, gv0 = gp.predictive_gradients(x)
+                pts.append(dict(off=[np.ravel(m0).tolist(), np.ravel(v0).tolist(), np.ravel(gm0).tolist(), np.ravel(gv0).tolist()],
+                                shapes_off=[list(np.shape(a)) for a in (m0, v0, gm0, gv0)]))
+            # ---- (next) sampling phase, as BOLFI.sample does it: posterior extracted, then is_sampling = True
+            try:
+                post = BolfiPosterior(gp, threshold=thr, prior=prior)
+            except Exception as e:
+                return dict(phases=phases, ctor_exception='%s: %s' % (type(e).__name__, e), default_kernel=bool(gp._kernel_is_default))
+            ph['t_readback'] = float(np.ravel(post.threshold)[0]) if np.size(post.threshold) == 1 else None
+            gp.is_sampling = True
+            try:
+                ph['cached_on_entry'] = bool(gp._rbf_is_cached)
+                for p, rw in zip(P, pts):
+                    x = p[None, :]
+                    m1, v1 = gp.predict(x)
+                    gm1, gv1 = gp.predictive_gradients(x)
+                    rw['on'] = [np.ravel(m1).tolist(), np.ravel(v1).tolist(), np.ravel(gm1).tolist(), np.ravel(gv1).tolist()]
+                    rw['shapes_on'] = [list(np.shape(a)) for a in (m1, v1, gm1, gv1)]
+                    xq = p if d > 1 else p[0]
+                    rw['logpdf'] = enc(np.ravel(post.logpdf(xq))[0])
+                    rw['grad'] = [enc(v) for v in np.ravel(post.gradient_logpdf(xq))]
+                    rw['lprior'] = enc(np.ravel(prior.logpdf(xq))[0])
+                    rw['gprior'] = [enc(v) for v in np.ravel(prior.gradient_logpdf(xq))]
+                    rw['inside'] = bool(np.all((p >= b[:, 0]) & (p <= b[:, 1])))
+            finally:
+                gp.is_sampling = False
+            for p, rw in zip(P, pts):           # GPy itself (touches neither is_sampling nor the cache)
+                rw['lib'] = self._lib_values(gp, p[None, :])
+                rw['amp'] = self._lib_amp(gp, p[None, :])
+            ph['points'] = pts
+            phases.append(ph)
+        return dict(phases=phases, default_kernel=bool(gp._kernel_is_default), n_evidence=int(gp.n_evidence))
 
     def run_impl(self, case):
         rec = case['recipe']
         if case['kind'] == 'ev':
             gp, snaps = self._gp(rec, want_snaps=True)
             return dict(snaps=snaps)
+        if case['kind'] == 'phase':
+            return self._run_phases(case)
         gp, _ = self._gp(rec)
         d = rec['dim']
         if case['kind'] == 'fast':
@@ -398,8 +583,17 @@ class C10(PropCheck):
         names = ['p%d' % i for i in range(d)]
         prior = make_prior(case['prior'], d, names)
         gp.is_sampling = False
-        post = BolfiPosterior(gp, threshold=case['threshold'], prior=prior)
-        t = float(np.ravel(post.threshold)[0]) if np.size(post.threshold) == 1 else None
+        supplied = case['threshold']
+        try:
+            post = BolfiPosterior(gp, threshold=supplied, prior=prior)
+        except Exception as e:
+            if supplied is None:
+                raise
+            return dict(t=float(supplied), t_supplied=float(supplied), ctor_exception='%s: %s' % (type(e).__name__, e))
+        t_read = float(np.ravel(post.threshold)[0]) if np.size(post.threshold) == 1 else None
+        # a caller-supplied threshold IS the threshold of the definition: everything below (oracle z, Coq pc_t, python
+        # formula clause) is computed from the value the test passed in, never from the attribute read back
+        t = t_read if supplied is None else float(supplied)
         q = case['query']
         P = np.array(q['points'], dtype=float)
         if q['shape'] == 'scalar':
@@ -439,7 +633,7 @@ class C10(PropCheck):
             gr = np.asarray(post.gradient_logpdf(x), dtype=float).reshape(-1, d)
         finally:
             del gp.predict, gp.predictive_gradients
-        out = dict(t=t, ndim=ndim,
+        out = dict(t=t, t_supplied=None if supplied is None else float(supplied), t_readback=t_read, ndim=ndim,
                    ll=[ll[0], enc(ll[1]) if ll[0] == 'scalar' else [enc(v) for v in ll[1]]],
                    gl=[gl[0], [enc(v) for v in np.ravel(gl[1])] if gl[0] == 'scalar' else [[enc(v) for v in np.ravel(rw)] for rw in gl[1]]],
                    logpdf=[enc(v) for v in lp], grad=[[enc(v) for v in rw] for rw in gr])
@@ -553,9 +747,15 @@ class C10(PropCheck):
                 if r['shapes_on'] != r['shapes_off']:
                     fails.append(('fast_path_shapes', 'x=%s: shapes on %s vs off %s' % (p, r['shapes_on'], r['shapes_off'])))
             return fails[:3]
+        if case['kind'] == 'phase':
+            return self._py_check_phases(case, out)
         if case['kind'] == 'post':
+            if 'ctor_exception' in out:
+                return [('supplied_threshold_used', 'BolfiPosterior(threshold=%r) raised %s (an explicit threshold needs no minimisation)'
+                         % (case['threshold'], out['ctor_exception']))]
             if out['t'] is None:
                 return [('threshold_scalar', 'posterior.threshold is not a scalar')]
+            fails.extend(self._formula_clause(case, out))
             for i, (g, lp) in enumerate(zip(out['grad'], out['logpdf'])):
                 if not isinstance(lp, str) and any(isinstance(v, str) for v in g):
                     fails.append(('gradient_finite_where_logpdf_finite', 'row %d x=%s: logpdf %s is finite but gradient_logpdf is %s (term=%s, cdf=%s)'
@@ -593,8 +793,137 @@ class C10(PropCheck):
             return fails[:3]
         return fails
 
+    @staticmethod
+    def _expected_post(t, mean, var, gmean, gvar, lprior, gprior):
+        """the definition, from the threshold the TEST supplied: log Phi((t - mean)/sd) + log prior and its gradient"""
+        import scipy.stats as ss
+        sd = math.sqrt(var)
+        z = (t - mean) / sd
+        lcdf = float(ss.norm.logcdf(z))
+        ratio = float(np.exp(ss.norm.logpdf(z) - ss.norm.logcdf(z)))
+        lp = -math.inf if lprior == 'ninf' else lcdf + lprior
+        g = [(-gm * sd - (t - mean) * 0.5 * gv / sd) / var * ratio + gp_ for gm, gv, gp_ in zip(gmean, gvar, gprior)]
+        return lp, g, z, ratio, sd
+
+    def _formula_clause(self, case, out):
+        """density and gradient of every in-bounds row against the formula evaluated with the threshold that was passed
+        to the constructor (the minimised one only when None was passed)"""
+        fails = []
+        t = out['t']
+        sup = out.get('t_supplied')
+        if sup is not None and not (out.get('t_readback') is not None and out['t_readback'] == sup):
+            fails.append(('supplied_threshold_used', 'BolfiPosterior(threshold=%r).threshold reads back %r' % (case['threshold'], out.get('t_readback'))))
+        b = np.array(case['recipe']['bounds'], dtype=float)
+        for i, rw in enumerate(out['rows']):
+            p = np.array(rw['x'], dtype=float)
+            if not np.all((p >= b[:, 0]) & (p <= b[:, 1])):
+                continue
+            if rw['lprior'] == 'other' or any(isinstance(v, str) for v in rw['gprior']) or not rw['var'] > 0:
+                continue
+            lp, g, z, ratio, sd = self._expected_post(t, rw['mean'], rw['var'], rw['gmean'], rw['gvar'], rw['lprior'], rw['gprior'])
+            if not (math.isfinite(ratio) and (math.isfinite(lp) or lp == -math.inf)):
+                continue
+            self.bump('formula_rows_checked' + ('(supplied threshold)' if sup is not None else '(minimised threshold)'))
+            got = out['logpdf'][i]
+            what = 'supplied threshold %r' % (case['threshold'],) if sup is not None else 'minimised threshold %r' % t
+            if lp == -math.inf:
+                if got != 'ninf':
+                    fails.append(('supplied_threshold_used', 'row %d x=%s: logpdf %s, definition gives -inf (prior)' % (i, rw['x'], got)))
+                continue
+            if isinstance(got, str) or not close(got, lp, 1e-9):
+                fails.append(('supplied_threshold_used', 'row %d x=%s: logpdf %s but log Phi((t-mean)/sd) + log prior = %r for the %s (mean %r, var %r; posterior.threshold reads %r)'
+                              % (i, rw['x'], got, lp, what, rw['mean'], rw['var'], out.get('t_readback'))))
+                continue
+            gg = out['grad'][i]
+            if any(isinstance(v, str) for v in gg) or not close(gg, g, 1e-9 * max(1.0, abs(z))):
+                fails.append(('supplied_threshold_used', 'row %d x=%s: gradient_logpdf %s but the definition gives %s for the %s'
+                              % (i, rw['x'], gg, g, what)))
+        return fails[:2]
+
+    def _py_check_phases(self, case, out):
+        fails = []
+        if 'ctor_exception' in out:
+            return [('supplied_threshold_used', 'phase %d: BolfiPosterior(threshold=%r) raised %s' % (len(out['phases']), case['threshold'], out['ctor_exception']))]
+        if not out['default_kernel']:
+            fails.append(('fast_path_taken', 'default kernel not recognised: fast path was not exercised'))
+        t = float(case['threshold'])
+        for k, ph in enumerate(out['phases']):
+            st = ph['step']
+            desc = 'phase %d (first sampling phase)' % k if st is None else 'phase %d (after leaving the sampling phase and %s; hyper-parameters %s)' % (
+                k, {'optimize': 'a standalone optimize()', 'update': 'update(optimize=%s) with %d new rows' % (st.get('optimize'), len(st.get('X', []))),
+                    'set': 'setting %s x %s on the GPy model' % (st.get('param'), st.get('factor'))}[st['op']],
+                '%s -> %s' % tuple(ph['hyper']) if ph['changed'] else 'unchanged')
+            if st is not None:
+                self.bump('phase_reentries')
+                if st['op'] != 'update':
+                    self.bump('phase_reentries_without_new_evidence')
+                    if ph['changed']:
+                        self.bump('phase_reentries_without_new_evidence_hyperparameters_changed')
+                # observation, not a clause: what a re-entry without any non-sampling predict() in between would have served
+                pr = ph['probe']
+                lib0 = ph['points'][0]['lib']
+                if isinstance(pr, str):
+                    self.bump('observed:reentry_before_any_nonsampling_predict:' + pr.replace(' ', '_'))
+                elif ph['changed'] and not (close(pr[0], lib0[0], 1e-6) and close(pr[1], lib0[1], 1e-6)):
+                    self.bump('observed:reentry_before_any_nonsampling_predict:stale_values')
+                elif ph['changed']:
+                    self.bump('observed:reentry_before_any_nonsampling_predict:current_values')
+            if ph['t_readback'] != t:
+                fails.append(('supplied_threshold_used', '%s: BolfiPosterior(threshold=%r).threshold reads back %r' % (desc, case['threshold'], ph['t_readback'])))
+            for p, r in zip(case['points'], ph['points']):
+                bad = False
+                for name, a, l_, o in zip(('mean', 'var', 'grad_mean', 'grad_var'), r['on'], r['lib'], r['off']):
+                    slack = 64 * 2.2e-16 * r['amp'][name]      # same policy as the on/off clause
+                    if np.shape(a) != np.shape(l_) or not np.all(np.abs(np.array(a) - np.array(l_)) <= TOL_FAST * (1 + np.abs(np.array(l_))) + slack):
+                        fails.append(('fast_path_equals_gp_multiphase', '%s: %s at x=%s: is_sampling on %s vs GPy %s (slack %.3g; cache flag on entry %s)'
+                                      % (desc, name, p, a, l_, slack, ph['cached_on_entry'])))
+                        bad = True
+                    if np.shape(o) != np.shape(l_) or not close(o, l_, 1e-12):
+                        fails.append(('slow_path_is_gp', '%s: %s at x=%s: is_sampling off %s vs GPy %s' % (desc, name, p, o, l_)))
+                if r['shapes_on'] != r['shapes_off']:
+                    fails.append(('fast_path_shapes', '%s: x=%s: shapes on %s vs off %s' % (desc, p, r['shapes_on'], r['shapes_off'])))
+                # ---- the posterior in this phase
+                if not r['inside']:
+                    if r['logpdf'] != 'ninf':
+                        fails.append(('posterior_multiphase', '%s: x=%s outside the bounds but logpdf = %s' % (desc, p, r['logpdf'])))
+                    continue
+                if r['lprior'] == 'other' or any(isinstance(v, str) for v in r['gprior']):
+                    continue
+                m1, v1, gm1, gv1 = r['on']
+                ml, vl, gml, gvl = r['lib']
+                if not (v1[0] > 0 and vl[0] > 0):
+                    self.bump('phase_rows_nonpositive_variance')
+                    continue
+                # (i) exactly the formula on the values the accelerated path handed over (tight) ...
+                lp, g, z, ratio, sd = self._expected_post(t, m1[0], v1[0], gm1, gv1, r['lprior'], r['gprior'])
+                # (ii) ... and the definition on GPy's values, with the error the fast-path clause allows propagated
+                lpl, gl_, zl, ratiol, sdl = self._expected_post(t, ml[0], vl[0], gml, gvl, r['lprior'], r['gprior'])
+                if not (math.isfinite(ratio) and math.isfinite(ratiol)):
+                    continue
+                self.bump('phase_posterior_rows_checked')
+                if lp == -math.inf:
+                    if r['logpdf'] != 'ninf':
+                        fails.append(('posterior_multiphase', '%s: x=%s: logpdf %s, definition gives -inf (prior)' % (desc, p, r['logpdf'])))
+                    continue
+                if isinstance(r['logpdf'], str) or not close(r['logpdf'], lp, 1e-9):
+                    fails.append(('posterior_multiphase', '%s: x=%s: logpdf %s but log Phi((t-mean)/sd) + log prior = %r on the sampling-mode mean %r var %r (threshold %r)'
+                                  % (desc, p, r['logpdf'], lp, m1[0], v1[0], case['threshold'])))
+                elif any(isinstance(v, str) for v in r['grad']) or not close(r['grad'], g, 1e-9 * max(1.0, abs(z))):
+                    fails.append(('posterior_multiphase', '%s: x=%s: gradient_logpdf %s but the definition gives %s on the sampling-mode surrogate values' % (desc, p, r['grad'], g)))
+                if not bad:
+                    am = TOL_FAST * (1 + abs(ml[0])) + 64 * 2.2e-16 * r['amp']['mean']
+                    av = TOL_FAST * (1 + abs(vl[0])) + 64 * 2.2e-16 * r['amp']['var']
+                    tol = TOL_FAST * (1 + abs(lpl)) + 4 * max(ratiol, 1.0) * (am + abs(zl) * av / (2 * sdl)) / sdl
+                    if isinstance(r['logpdf'], str) or not abs(r['logpdf'] - lpl) <= tol:
+                        fails.append(('posterior_multiphase', '%s: x=%s: logpdf %s but log Phi((t-mean)/sd) + log prior = %r on GPy mean %r var %r (threshold %r, tolerance %.3g)'
+                                      % (desc, p, r['logpdf'], lpl, ml[0], vl[0], case['threshold'], tol)))
+        return fails[:3]
+
     def nontrivial(self, case, out):
-        key = json.dumps([case['recipe'], case.get('query'), case.get('points'), case.get('threshold'), case.get('prior')], sort_keys=True)
+        key = json.dumps([case['recipe'], case.get('query'), case.get('points'), case.get('threshold'), case.get('prior'), case.get('steps')], sort_keys=True)
+        if case['kind'] == 'phase':
+            ok = len(case['points']) >= 2 and any(ph['step'] is not None and ph['step']['op'] != 'update' and ph['changed'] for ph in out.get('phases', []))
+            return key if ok else None
         if case['kind'] == 'ev':
             return key if len(case['recipe']['batches']) >= 2 else None
         if case['kind'] == 'fast':
@@ -611,7 +940,7 @@ class C10(PropCheck):
 
     # ---- Coq terms --------------------------------------------------------------------------
     def to_coq(self, case, out):
-        if case['kind'] == 'fast':
+        if case['kind'] in ('fast', 'phase') or 'ctor_exception' in out:
             return None
         if case['kind'] == 'ev':
             def erows(X, Y):
